@@ -261,6 +261,10 @@ func inspectAVP(c *ev.Case, a *diam.AVP, class string) {
 	}
 }
 
+// inspectBounded: the inspections whose allocations are measured against the size of the input.
+var inspectBounded = map[string]bool{"String": true, "PrettyDump": true, "Serialize": true, "Len": true, "Answer": true,
+	"Unmarshal-CER": true, "Unmarshal-CEA": true, "Unmarshal-shape1": true, "Unmarshal-shape2": true}
+
 // inspect renders / searches / unmarshals a decoded message.
 func inspect(c *ev.Case, ctx *lib.Ctx, m *diam.Message, in []byte, class string) bool {
 	type op struct {
@@ -313,9 +317,27 @@ func inspect(c *ev.Case, ctx *lib.Ctx, m *diam.Message, in []byte, class string)
 			continue
 		}
 		c.Input("inspect/"+o.name, in)
+		var ms0, ms1 runtime.MemStats
+		bounded := inspectBounded[o.name]
+		if bounded {
+			runtime.ReadMemStats(&ms0)
+		}
 		if p, bad := guard(o.f); bad {
 			c.Fail(ev.Sig{"op": "panic", "call": o.name, "site": panicSite(p)}, in, nil, "%s of a decoded message panicked (%s, dict %s): %s", o.name, class, ctx.Name, p)
 			return false
+		}
+		if bounded {
+			// a decoded tree is rendered / re-serialised / unmarshalled in memory proportional to its
+			// size times its nesting depth (every level embeds the text of the levels below), never
+			// to the square of the number of AVPs
+			runtime.ReadMemStats(&ms1)
+			bound := 16 * uint64(depth+2) * memBound(len(in))
+			if alloc := ms1.TotalAlloc - ms0.TotalAlloc; alloc > bound {
+				c.Fail(ev.Sig{"op": "over-allocation", "call": o.name}, in[:min(len(in), 64)], map[string]any{"supplied": len(in), "allocated": alloc, "bound": bound, "depth": depth},
+					"%s of a decoded message allocated %d bytes for %d supplied bytes and nesting depth %d (bound 16*(depth+2)*(64*len+1MiB) = %d) (%s, dict %s)", o.name, alloc, len(in), depth, bound, class, ctx.Name)
+				return false
+			}
+			c.Event("inspections_memory_bounded", 1)
 		}
 	}
 	c.Event("messages_inspected", 1)
@@ -603,6 +625,61 @@ func TestC03(t *testing.T) {
 		deep := c.I/(len(widths)*len(grouped)) == 1
 		offer(c, def, wideGroup(code, w, deep), fmt.Sprintf("wide/members=%d/deep=%v", w, deep))
 	})
+
+	// 3d. the same code several times, one occurrence unlike the others (the V bit with a vendor id
+	//     nobody defines, so that it decodes as opaque data; the V bit with vendor 0; a payload of
+	//     another size): struct fields that are slices of plain values see values of mixed types
+	repNames := []string{"Host-IP-Address", "G-UTF8", "G-U32", "G-F64", "G-Addr", "G-I64", "G-Enum"}
+	rec.Suite("repeated-codes", len(repNames)*4*3, func(c *ev.Case) {
+		name := repNames[c.I%len(repNames)]
+		kind := (c.I / len(repNames)) % 4
+		pos := c.I / (len(repNames) * 4)
+		var ctx *lib.Ctx
+		var code uint32
+		for _, cx := range ctxs {
+			if a, err := cx.Parser.FindAVP(0, name); err == nil {
+				ctx, code = cx, a.Code
+				break
+			}
+		}
+		if ctx == nil {
+			t.Fatalf("no dictionary context defines %s", name)
+		}
+		good := map[string][]byte{"Host-IP-Address": {0, 1, 10, 0, 0, 1}, "G-UTF8": []byte("abc"), "G-U32": {0, 0, 0, 7}, "G-F64": {0x40, 9, 0x21, 0xfb, 0x54, 0x44, 0x2d, 0x18},
+			"G-Addr": {0, 1, 10, 0, 0, 2}, "G-I64": {0xff, 0xff, 0xff, 0xff, 0xff, 0xff, 0xff, 0xfe}, "G-Enum": {0, 0, 0, 1}}[name]
+		var body []byte
+		for i := 0; i < 3; i++ {
+			flags, vendor, payload := uint8(0x40), uint32(0), good
+			if i == pos {
+				switch kind {
+				case 0:
+					flags, vendor = 0xC0, 99999
+				case 1:
+					payload = nil
+				case 2:
+					payload = append(append([]byte{}, good...), 0x41)
+				case 3:
+					flags = 0xC0
+				}
+			}
+			hl := 8
+			if flags&0x80 != 0 {
+				hl = 12
+			}
+			body = append(body, rawHeader(code, flags, vendor, hl+len(payload))...)
+			body = append(body, payload...)
+			for len(body)%4 != 0 {
+				body = append(body, 0)
+			}
+		}
+		cmd := uint32(257)
+		if name != "Host-IP-Address" {
+			cmd = 8388000
+		}
+		in := append(refcodec.EncodeHeader(refcodec.Header{Version: 1, Length: uint32(20 + len(body)), Flags: 0x80, Code: cmd, HopByHop: 1, EndToEnd: 1}), body...)
+		offer(c, ctx, in, fmt.Sprintf("repeated/%s/odd-one=%d/at=%d", name, kind, pos))
+	})
+	rec.Exhaustive("repeated-codes")
 
 	// 3c. retention: what the decoders keep once the messages are dropped must not grow with
 	//     the traffic (streams of AVPs whose code / vendor / application keeps changing)
